@@ -131,7 +131,8 @@ def gen_pipeline(ctx: Ctx, focus=False, force_algorithm=False, failing=False, pa
     if kind == "build":
         dets, post = ["waves"], rng.choice(["none", "ctf", "ctf+intensity"])
     entry = "builder" if kind == "build" else rng.choice(["builder", "builder", "real", "reciprocal"])
-    slow = ["realspace"] if ctx.thorough else []  # long JIT compilation per process: thorough tier (quick: traced only)
+    # the real-space kernel costs ~30 s CPU per run (JIT compilation per operator): thorough tier, ~5 % of the pipelines
+    slow = ["realspace"] if (ctx.thorough and rng.random() < 0.15) else []
     algorithm = rng.choice(["default", "default", "fourier-conjugate", "fourier-transpose", "fourier-order2"] + slow)
     if partial_blocks:  # scan shapes that are not a multiple of the chunk chosen from max_batch (a smaller trailing block)
         builder, entry, kind = "probe", "builder", "multislice"
@@ -301,7 +302,7 @@ class C01(Property):
         def add(name, line, impl, case):
             lines.append(line); impls.append(impl); names.append(name); cases.append(case)
 
-        for _ in range(ctx.n(50, 350)):
+        for _ in range(ctx.n(50, 600)):
             c = trace_case(rng)
             for lazy in (False, True):
                 pot, configs, ids, text, chunks = run_traced(c, lazy)
@@ -389,7 +390,7 @@ class C01(Property):
                 return
 
     def conformance(self, ctx: Ctx):
-        for i in range(ctx.n(36, 250)):
+        for i in range(ctx.n(36, 500)):
             c = gen_pipeline(ctx, focus=(i % 4 == 3), force_algorithm=(i % 4 == 1), failing=(i % 6 == 2), partial_blocks=(i % 6 == 4))
             self.oracle(ctx, c)
             ctx.count(f"numeric:{c['kind']}:{c['pot']}:{c['builder']}:scan={c['scan']}:batch={c['max_batch']}:{c['scheduler']}:post={c['post']}:entry={c['entry']}:{c['algorithm']}:fail={c['fail']}:ensprobe={c['ens_probe']}")
